@@ -97,8 +97,18 @@ impl LocalSpan {
     {
         #[cfg(feature = "enable")]
         if let Some(LocalSpanInner { stack, span_handle }) = &self.inner {
-            let span_stack = &mut *stack.borrow_mut();
-            span_stack.with_properties(span_handle, properties);
+            // The closure may trace as well (call a `#[trace]` function, log through a
+            // fastrace-aware logger), so it must not run while the span stack is borrowed. It
+            // still only runs if the properties are going to be recorded.
+            let recording = stack.borrow_mut().is_recording();
+            if recording {
+                let properties: Vec<(Cow<'static, str>, Cow<'static, str>)> = properties()
+                    .into_iter()
+                    .map(|(k, v)| (k.into(), v.into()))
+                    .collect();
+                let span_stack = &mut *stack.borrow_mut();
+                span_stack.with_properties(span_handle, move || properties);
+            }
         }
 
         self
@@ -150,8 +160,16 @@ impl LocalSpan {
         {
             LOCAL_SPAN_STACK
                 .try_with(|s| {
-                    let span_stack = &mut s.borrow_mut();
-                    span_stack.add_properties(properties);
+                    // See `with_properties`: the closure runs outside of the borrow.
+                    let recording = s.borrow_mut().is_recording();
+                    if recording {
+                        let properties: Vec<(Cow<'static, str>, Cow<'static, str>)> = properties()
+                            .into_iter()
+                            .map(|(k, v)| (k.into(), v.into()))
+                            .collect();
+                        let span_stack = &mut s.borrow_mut();
+                        span_stack.add_properties(move || properties);
+                    }
                     Some(())
                 })
                 .ok();
